@@ -135,3 +135,33 @@ for e in ENGINES:
         e["serves_properties"] = sorted(set(e["serves_properties"]) | {"C15"})
 ENGINES.append({"name": "gcv-corpus", "path": "/verif/gcv/corpus.py", "serves_properties": ["C15"],
                 "kind_free_text": "generated crate of derive(Collect) type shapes, type-checked (never run) through the driver against the current tree; expansions' MIR and const-evaluated NEEDS_TRACE inspected by the coverage analysis"})
+
+# ---- second session: bounded heap exploration (E6), new rule families
+HEAP = ("; bounded heap exploration (E6): abstract interpretation of the collector's MIR over every abstract heap of <= K objects "
+        "with strong / weak edges reachable from the empty arena by <= depth API operations, user Collect::trace specified as exact, "
+        "invariant %s evaluated on every explored state and transition")
+HEAP_TEXT = (" The bounded heap exploration (DESIGN.md §11) additionally checks the property statement itself - in terms of "
+             "reachability from the root - on every abstract heap of at most K objects reachable within the explored depth (quick: K=2, "
+             "depth 5; thorough: K=2 depth 9 and K=3 depth 5); it is a bounded exploration, not a proof for all heaps.")
+for pid, inv in (("C01", "H1 (no strongly reachable object destructed / released)"), ("C02", "H4 (two full cycles leave exactly the reachable objects)"),
+                 ("C04", "H2 (exactly-once destruction and release, arena drop)"), ("C05", "H3 (weak pointers: no released target, upgrade truth)"),
+                 ("C06", "(no barrier / allocation / upgrade call panics)"), ("C07", "H5 (nothing reachable is dead at Marked; resurrection holds for the cycle)"),
+                 ("C10", "H6 (Gc count = unreleased allocations, no counter underflow)"),
+                 ("C11", "H1-H4, H6 under injected panics of user trace / destructors, oracles run fault-free afterwards")):
+    CLAIMED[pid]["technique"] += HEAP % inv
+    CLAIMED[pid]["text"] += HEAP_TEXT
+CLAIMED["C03"]["technique"] += "; CFG rule on the value parameter of allocation functions (no normal path keeps ownership: the value is moved into the block)"
+CLAIMED["C04"]["technique"] += "; CFG rule on the value parameter of allocation functions"
+CLAIMED["C07"]["technique"] += "; the marking half of the tri-colour obligations (trace, mark_one, barriers, adoption paths) as premises of 'nothing reachable is dead'"
+CLAIMED["C13"]["technique"] += "; projection-step rule (a &Write projection goes through Deref / Index only under the marker bound for the very type); macro metavariables never transcribed inside unsafe"
+CLAIMED["C15"]["technique"] += "; impl-predicate rule ('static demanded for every require_static field of generic type, under every bound override)"
+CLAIMED["C16"]["technique"] += "; interprocedural helper / closure summaries and splitting accessors in the coverage analysis"
+CLAIMED["C18"]["technique"] += "; term interpretation of the slice builder's Drop; loop rule (no pointer-range loop over generic elements); value-moved-into-block rule"
+CLAIMED["C19"]["technique"] += "; macro metavariables never transcribed inside unsafe (macro inventory) ; escape analysis of computed addresses"
+CLAIMED["C12"]["technique"] += "; macro metavariables never transcribed inside unsafe (macro inventory)"
+ENGINES.append({"name": "gcv-heap", "path": "/verif/gcv/heap.py", "serves_properties": ["C01", "C02", "C04", "C05", "C06", "C07", "C10", "C11"],
+                "kind_free_text": "bounded heap exploration (E6): the abstract interpreter run over small abstract heaps with an edge relation; level-synchronous parallel breadth-first exploration from the empty arena; invariants H1-H6 are the property statements in terms of reachability; nothing of gc-arena is executed"})
+ENGINES.append({"name": "gcv-canon", "path": "/verif/gcv/canon.py", "serves_properties": ["C01", "C02", "C03", "C04", "C05", "C06", "C07", "C08", "C09", "C10", "C11", "C14", "C18"],
+                "kind_free_text": "normalisation of the fact file to the pinned vocabulary: impl blocks in other modules, moved items, and renamed private items found by their role in the call graph relative to the public API (never by spelling); identity on the unchanged tree"})
+NOTES += (" Eight checks share one bounded heap exploration per analysed tree (cached next to the fact files; recomputed whenever the "
+          "tree, the tier or the engine's sources change).")
